@@ -79,7 +79,7 @@ def roughAll : Bytes → Bytes → Bool
 
 /-- helper.py:325-352 `output_roughly_contains_input(input_, output)` -/
 def roughlyContains (inp out : Bytes) : Bool :=
-  if isInfixB out inp then true
+  if isInfixB inp out then true
   else if out.length < inp.length then false
   else roughAll inp out
 
